@@ -33,7 +33,7 @@ static Case genRecCase(Choices &c, int tier, const char *prop, int errorPct, boo
   std::vector<int> ml = minLen(g);
   int maxLen = tier ? 14 : 9;
   for (int k = 0; k < nInputs; k++) {
-    int kind = c.chance(15) ? 0 : (c.chance(70) ? 1 : 2);
+    int kind = c.chance(10) ? 0 : (c.chance(75) ? 1 : 2);
     cs.inputs.push_back(toCodes(g, genInputIdx(c, g, ml, maxLen, kind)));
   }
   cs.par["match"] = c.range(1, 5);
@@ -86,7 +86,6 @@ static Verdict runC06(const Case &cs) {
     if (re == 0) v.labels.insert("in:error-at-token-0");
     if (n >= 3 && re > 0) v.nontrivial = true;
     for (int la = 0; la < 3; la++) for (int rec = 0; rec < 2; rec++) {
-      if (rec && errInit) { v.labels.insert("excluded:F21-error-initial-start-rule"); continue; }
       Binding *b = freshDefined(cs, v);
       if (!b) return v;
       Conf cf; cf.la = la; cf.one = 1; cf.rec = rec; cf.match = match;
@@ -98,7 +97,7 @@ static Verdict runC06(const Case &cs) {
       if (o.hook.rec_explosion) { v.labels.insert("excluded:F27-recovery-explosion"); b->destroy(); delete b; continue; }
       if (o.rc != 0) { v.fail("yaep_parse returned " + std::to_string(o.rc) + where); return v; }
       if (o.errs.empty()) { v.fail("no syntax_error call for a non-sentence" + where); return v; }
-      const ErrCall &f = o.errs[0];
+      const ErrCall f = o.errs[0];
       if (f.e != re) { v.fail("first syntax_error call does not report the first offending token" + where); return v; }
       if (f.ea != (re < n ? re : -1)) { v.fail("attribute of the error token is not that token's attribute" + where); return v; }
       if (!rec) {
@@ -106,6 +105,14 @@ static Verdict runC06(const Case &cs) {
         if (f.s != -1 || f.r != -1 || f.sa != -1 || f.ra != -1) { v.fail("recovery off: recovery arguments are not (-1, NULL, -1, NULL)" + where); return v; }
       } else {
         int prev = -1;
+        if (errInit && !o.root && o.errs.back().s == -1 && o.errs.back().r == -1 && o.errs.back().sa == -1 && o.errs.back().ra == -1) {
+          // no recovery exists (start symbol has an `error'-initial rule): the parse ends as without recovery
+          if (kfListed("KF-C07-no-recovery-without-implicit-rule")) {
+            v.known = "KF-C07-no-recovery-without-implicit-rule"; if (v.st == V_PASS) v.st = V_KNOWN;
+            v.labels.insert("attributed:KF-C07-no-recovery-without-implicit-rule");
+            o.errs.pop_back();
+          }
+        }
         for (auto &e : o.errs) {
           if (!(0 <= e.s && e.s <= e.r && e.r <= n)) { v.fail("recovery on: not 0 <= first ignored <= first recovered <= token count" + where); return v; }
           if (!(0 <= e.e && e.e <= n)) { v.fail("recovery on: error token outside the input" + where); return v; }
@@ -123,12 +130,321 @@ static Verdict runC06(const Case &cs) {
   return v;
 }
 
+
+// ================================================================= C07 / C08
+// leaves of one denoted tree, in order (from its canonical string)
+struct Leaf { bool err; long code, attr; };
+static std::vector<Leaf> leavesOf(const std::string &t) {
+  std::vector<Leaf> v;
+  for (size_t i = 0; i < t.size();) {
+    bool boundary = i == 0 || t[i - 1] == '(' || t[i - 1] == ' ';
+    if (boundary && t.compare(i, 3, "ERR") == 0 && (i + 3 == t.size() || t[i + 3] == ' ' || t[i + 3] == ')')) { v.push_back({true, 0, 0}); i += 3; continue; }
+    if (boundary && t[i] == 't' && i + 1 < t.size() && (isdigit((unsigned char)t[i + 1]) || t[i + 1] == '-')) {
+      size_t j = i + 1;
+      while (j < t.size() && t[j] != '@' && t[j] != ' ' && t[j] != ')' && t[j] != '(') j++;
+      if (j < t.size() && t[j] == '@') {
+        long code = atol(t.c_str() + i + 1), attr = atol(t.c_str() + j + 1);
+        size_t k = j + 1;
+        while (k < t.size() && (isdigit((unsigned char)t[k]) || t[k] == '-')) k++;
+        if (k == t.size() || t[k] == ' ' || t[k] == ')') { v.push_back({false, code, attr}); i = k; continue; }
+      }
+    }
+    i++;
+  }
+  return v;
+}
+// rewrite the attribute indexes of the TERM leaves of a canonical string
+static std::string withAttrs(const std::string &t, const std::vector<long> &attrs) {
+  std::string o;
+  size_t li = 0;
+  for (size_t i = 0; i < t.size();) {
+    bool boundary = i == 0 || t[i - 1] == '(' || t[i - 1] == ' ';
+    if (boundary && t[i] == 't' && i + 1 < t.size() && (isdigit((unsigned char)t[i + 1]) || t[i + 1] == '-')) {
+      size_t j = i + 1;
+      while (j < t.size() && t[j] != '@' && t[j] != ' ' && t[j] != ')' && t[j] != '(') j++;
+      if (j < t.size() && t[j] == '@') {
+        size_t k = j + 1;
+        while (k < t.size() && (isdigit((unsigned char)t[k]) || t[k] == '-')) k++;
+        if (k == t.size() || t[k] == ' ' || t[k] == ')') {
+          o += t.substr(i, j + 1 - i) + std::to_string(li < attrs.size() ? attrs[li] : -9);
+          li++;
+          i = k;
+          continue;
+        }
+      }
+    }
+    o += t[i++];
+  }
+  return o;
+}
+
+struct RepairCheck {
+  bool ok = false;
+  std::string why;
+  bool singleSegment = false; // exactly one ERR leaf
+  int segA = -1, segB = -1;   // the replaced segment [segA, segB) when singleSegment
+};
+// Does tree string `t' (whose TERM leaves sit at original token indexes surv[]) translate a derivation of the repaired input?
+static RepairCheck checkRepair(const Aug &ag, const Info &agi, const Gram &g, const std::vector<int> &w, const std::string &t,
+                               const std::vector<Leaf> &lv, const std::vector<long> &surv, long reportedTotal, bool rootIsNil) {
+  RepairCheck rc;
+  int n = w.size();
+  // surviving tokens: strictly increasing indexes with matching codes
+  long prev = -1;
+  size_t si = 0;
+  std::vector<int> r, attrOf;
+  int nErr = 0;
+  std::vector<int> missingBetween; // per gap
+  std::vector<int> errBetween;
+  int gapErr = 0;
+  int last = -1;
+  auto closeGap = [&](int upto) { missingBetween.push_back(upto - last - 1); errBetween.push_back(gapErr); gapErr = 0; };
+  int firstErrNextTok = -1; bool sawErr = false;
+  for (auto &l : lv) {
+    if (l.err) { r.push_back(g.errT); attrOf.push_back(-1); nErr++; gapErr++; sawErr = true; firstErrNextTok = -2; continue; }
+    long idx = surv[si++];
+    if (idx <= prev || idx < 0 || idx >= n) { rc.why = "TERM leaves are not an increasing subsequence of the input tokens"; return rc; }
+    if (g.tcode[w[idx]] != l.code) { rc.why = "TERM leaf code differs from the code of the token it is attributed to"; return rc; }
+    closeGap((int)idx);
+    if (firstErrNextTok == -2) firstErrNextTok = (int)idx;
+    last = (int)idx;
+    prev = idx;
+    r.push_back(w[idx]); attrOf.push_back((int)idx);
+  }
+  closeGap(n);
+  if (firstErrNextTok == -2) firstErrNextTok = n;
+  if (rootIsNil && lv.empty() && ag.implicitRule) { // total loss through the implicit rule  $S : error $eof  (no translation)
+    r = {g.errT}; attrOf = {-1}; nErr = 1; missingBetween = {n}; errBetween = {1}; firstErrNextTok = n; sawErr = true;
+  }
+  long missing = 0;
+  for (size_t k = 0; k < missingBetween.size(); k++) {
+    missing += missingBetween[k];
+    if (missingBetween[k] > 0 && errBetween[k] == 0) { rc.why = "tokens are missing from the tree where no `error' stands for them"; return rc; }
+  }
+  if (missing != reportedTotal) { rc.why = "the tree lacks " + std::to_string(missing) + " input tokens but the callbacks reported " + std::to_string(reportedTotal) + " ignored"; return rc; }
+  // the tree must be a translation of a derivation of r
+  std::vector<int> rw = r; rw.push_back(ag.eofT);
+  std::vector<int> at = attrOf; at.push_back(-1);
+  Enum e(ag.g, rw, 20000, at);
+  if (!e.sentence()) { rc.why = "the repaired input read off the leaves is not derivable (with `error' as a terminal)"; return rc; }
+  const Enum::VT &tv = e.symEnum(ag.g.start, 0, rw.size());
+  if (e.overflow) { rc.ok = true; rc.why = "enumeration-cap"; return rc; }
+  bool found = false;
+  for (auto &x : tv) if (x.s == t) { found = true; break; }
+  if (!found) { rc.why = "the tree is not a translation of any derivation of the repaired input"; return rc; }
+  rc.ok = true;
+  if (nErr == 1) {
+    rc.singleSegment = true;
+    // the single ERR stands for the tokens missing in its gap (all missing tokens are there, checked above)
+    for (size_t k = 0; k < missingBetween.size(); k++)
+      if (errBetween[k] == 1) {
+        // gap k lies before the k-th surviving token
+        int b = firstErrNextTok;
+        rc.segB = b; rc.segA = b - missingBetween[k];
+      }
+  }
+  (void)sawErr; (void)agi;
+  return rc;
+}
+
+static Case genC07(Choices &c, int tier) {
+  Case cs = genRecCase(c, tier, "C07", 70, true, 3, false);
+  cs.par["fullyield"] = 1;
+  return cs;
+}
+static long refMinRecovery(const Aug &ag, const Info &agi, const Gram &g, const std::vector<int> &w, int e, int rm, int *nSucc, bool *needBack, bool *needSkip);
+
+static Verdict runC07(const Case &cs) {
+  Verdict v; RecCtx x;
+  if (!prep(cs, x, v)) return v;
+  Aug ag = augment(x.g);
+  Info agi = analyse(ag.g);
+  bool errInit = !ag.implicitRule;
+  int match = (int)cs.P("match", 3);
+  for (auto &codes : cs.inputs) {
+    std::vector<int> w;
+    if (!toIdx(x.g, codes, w)) { v.st = V_DISCARD; return v; }
+    int n = w.size();
+    int re = refParse(x.g, x.in, w);
+    bool sent = re < 0;
+    v.labels.insert(sent ? "in:sentence" : "in:non-sentence");
+    for (int la = 0; la < 3; la++) for (int one = 0; one < 2; one++) {
+      Binding *b = freshDefined(cs, v);
+      if (!b) return v;
+      Conf cf; cf.la = la; cf.one = one; cf.rec = 1; cf.match = match;
+      ParseOpts po; po.den_limit = 300;
+      yaep_verif.rec_limit = 20000;
+      Outcome o = runParse(*b, codes, cf, po);
+      v.parses++;
+      std::string where = " [" + cf.str() + " input=" + inputStr(codes) + " sentence=" + std::to_string(sent) + "] got " + o.str();
+      if (o.hook.rec_explosion) { v.labels.insert("excluded:F27-recovery-explosion"); b->destroy(); delete b; continue; }
+      if (o.rc != 0) { v.fail("yaep_parse returned " + std::to_string(o.rc) + " with recovery on" + where); return v; }
+      if (sent != o.errs.empty()) { v.fail("syntax_error calls do not match the verdict (at least one call iff not a sentence)" + where); return v; }
+      if (!o.root) {
+        // no recovery exists when the start symbol has an `error'-initial rule (no implicit rule covers total loss)
+        bool cls = errInit && !sent && !o.errs.empty() && o.errs.back().s == -1 && o.errs.back().r == -1;
+        if (cls && kfListed("KF-C07-no-recovery-without-implicit-rule")) {
+          v.known = "KF-C07-no-recovery-without-implicit-rule"; if (v.st == V_PASS) v.st = V_KNOWN;
+          v.labels.insert("attributed:KF-C07-no-recovery-without-implicit-rule");
+          b->destroy(); delete b; continue;
+        }
+        v.fail("recovery on: NULL root" + where); return v;
+      }
+      if (!o.tree.ok) { v.fail("malformed tree after recovery: " + o.tree.problem + where); return v; }
+      if (sent) { if (o.tree.has_err) { v.fail("ERROR node in the tree of a sentence" + where); return v; } b->destroy(); delete b; continue; }
+      if (o.tree.overflow) { v.labels.insert("discard:denotation-cap"); b->destroy(); delete b; continue; }
+      long total = 0;
+      for (auto &e : o.errs) total += e.r - e.s;
+      bool rootNil = o.tree.den.size() == 1 && o.tree.den.begin()->s == "nil";
+      for (auto &t : o.tree.den) {
+        std::vector<Leaf> lv = leavesOf(t.s);
+        std::vector<long> surv;
+        for (auto &l : lv) if (!l.err) surv.push_back(l.attr);
+        RepairCheck rc = checkRepair(ag, agi, x.g, w, t.s, lv, surv, total, rootNil);
+        if (!rc.ok) {
+          // F22: TERM nodes created after a recovery take the attribute at the parser-list index, i.e. at their
+          // position in the REPAIRED input.  Accept exactly that misalignment as the listed finding.
+          bool predicted = true; size_t pos = 0;
+          for (auto &l : lv) { if (!l.err && l.attr != (long)pos) predicted = false; pos++; }
+          bool explained = false;
+          if (predicted && !lv.empty()) {
+            // search an order preserving embedding of the TERM leaves into the input that explains the tree
+            std::vector<int> tl;
+            for (size_t k = 0; k < lv.size(); k++) if (!lv[k].err) tl.push_back(k);
+            std::vector<long> emb(tl.size());
+            std::function<bool(size_t, int)> rec = [&](size_t k, int from) -> bool {
+              if (k == tl.size()) {
+                std::string t2 = withAttrs(t.s, emb);
+                return checkRepair(ag, agi, x.g, w, t2, lv, emb, total, false).ok;
+              }
+              for (int p = from; p < n; p++)
+                if (x.g.tcode[w[p]] == lv[tl[k]].code) { emb[k] = p; if (rec(k + 1, p + 1)) return true; }
+              return false;
+            };
+            explained = rec(0, 0);
+          }
+          if (explained && kfListed("KF-C07-term-attr-misaligned-after-recovery")) {
+            v.known = "KF-C07-term-attr-misaligned-after-recovery"; if (v.st == V_PASS) v.st = V_KNOWN;
+            v.labels.insert("attributed:KF-C07-term-attr-misaligned-after-recovery");
+            continue;
+          }
+          v.fail("recovery: " + rc.why + (explained ? " (explained by the F22 attribute misalignment, not listed)" : "") + " tree=" + t.s + where);
+          return v;
+        }
+        if (rc.why == "enumeration-cap") { v.labels.insert("discard:enumeration-cap"); continue; }
+        if (o.errs.size() == 1 && rc.singleSegment && o.tree.den.size() == 1) {
+          if (o.errs[0].s != rc.segA || o.errs[0].r != rc.segB) {
+            v.fail("single callback, single `error': reported range [" + std::to_string(o.errs[0].s) + "," + std::to_string(o.errs[0].r) + ") is not the replaced segment [" +
+                   std::to_string(rc.segA) + "," + std::to_string(rc.segB) + ") tree=" + t.s + where);
+            return v;
+          }
+          v.labels.insert("r:range-checked");
+        }
+      }
+      bool nt = o.errs.size() >= 2;
+      for (int k = 0; k < o.hook.n_rec && k < YAEP_VERIF_MAX_REC; k++) {
+        if (o.hook.rec[k].behind > 0) { nt = true; v.labels.insert("r:dropped-behind-error"); }
+        if (o.hook.rec[k].ahead > 0) { nt = true; v.labels.insert("r:skipped-ahead"); }
+        if (o.hook.rec[k].n_back_advances > 0) v.labels.insert("r:back-frontier-advanced");
+      }
+      if (o.errs.size() >= 2) v.labels.insert("r:several-callbacks");
+      if (rootNil) v.labels.insert("r:total-loss");
+      if (nt) v.nontrivial = true;
+      b->destroy(); delete b;
+    }
+  }
+  return v;
+}
+
+// minimal cost over all simple recoveries for the first error at token e (reference)
+static long refMinRecovery(const Aug &ag, const Info &agi, const Gram &g, const std::vector<int> &w, int e, int rm, int *nSucc, bool *needBack, bool *needSkip) {
+  int n = w.size();
+  std::vector<int> aw = w; aw.push_back(ag.eofT);
+  Chart ch;
+  startset(ag.g, agi, ch, ag.g.start);
+  for (int k = 0; k < e; k++) if (!shiftset(ag.g, agi, ch, k, aw[k])) return -1; // cannot happen: e is the first error
+  long best = LONG_MAX; int succ = 0; int bp = -1, bq = -1;
+  std::set<long> costs;
+  for (int p = 0; p <= e; p++) {
+    bool has = false;
+    for (auto &it : ch.S[p]) { const Rule &ru = ag.g.rules[it.rule]; if (it.dot < (int)ru.rhs.size() && ru.rhs[it.dot] == g.errT) has = true; }
+    if (!has) continue;
+    Chart c2; c2.S.assign(ch.S.begin(), ch.S.begin() + p + 1);
+    if (!shiftset(ag.g, agi, c2, p, g.errT)) continue;
+    for (int q = e; q <= n; q++) {
+      Chart c3 = c2;
+      int m = 0, pos = p + 1, t = q;
+      while (t <= n && m < rm) { if (!shiftset(ag.g, agi, c3, pos, aw[t])) break; pos++; t++; m++; }
+      bool ok = m >= rm || t == n + 1;
+      if (ok) { long cost = (e - p) + (q - e); succ++; costs.insert(cost); if (cost < best) { best = cost; bp = p; bq = q; } }
+    }
+  }
+  if (nSucc) *nSucc = (int)costs.size();
+  if (needBack) *needBack = bp >= 0 && bp < e;
+  if (needSkip) *needSkip = bq > e;
+  return best == LONG_MAX ? -1 : best;
+}
+
+static Case genC08(Choices &c, int tier) { return genRecCase(c, tier, "C08", 100, true, 3, false); }
+static Verdict runC08(const Case &cs) {
+  Verdict v; RecCtx x;
+  if (!prep(cs, x, v)) return v;
+  if (!v.labels.count("g:error-rules")) { v.st = V_DISCARD; v.labels.insert("discard:no-error-rule"); return v; }
+  Aug ag = augment(x.g);
+  Info agi = analyse(ag.g);
+  int match = (int)cs.P("match", 3);
+  for (auto &codes : cs.inputs) {
+    std::vector<int> w;
+    if (!toIdx(x.g, codes, w)) { v.st = V_DISCARD; return v; }
+    int re = refParse(x.g, x.in, w);
+    if (re < 0) { v.labels.insert("in:sentence(skipped)"); continue; }
+    int nSucc = 0; bool nb = false, ns = false;
+    long best = refMinRecovery(ag, agi, x.g, w, re, match, &nSucc, &nb, &ns);
+    if (best < 0) { v.labels.insert(ag.implicitRule ? "REFERENCE-PROBLEM:no-simple-recovery" : "excluded:no-simple-recovery(error-initial start rule)"); continue; }
+    for (int la = 0; la < 3; la++) {
+      Binding *b = freshDefined(cs, v);
+      if (!b) return v;
+      Conf cf; cf.la = la; cf.one = 1; cf.rec = 1; cf.match = match;
+      ParseOpts po; po.analyse_tree = false;
+      yaep_verif.rec_limit = 20000;
+      Outcome o = runParse(*b, codes, cf, po);
+      v.parses++;
+      std::string where = " [" + cf.str() + " input=" + inputStr(codes) + " first error token=" + std::to_string(re) + " reference minimum=" + std::to_string(best) + "] got " + o.str();
+      if (o.hook.rec_explosion) { v.labels.insert("excluded:F27-recovery-explosion"); b->destroy(); delete b; continue; }
+      if (o.rc != 0 || o.errs.empty()) { v.fail("recovery on: rc != 0 or no callback for a non-sentence" + where); return v; }
+      if (!o.root) { v.labels.insert("no-recovery(NULL root; judged by C07)"); b->destroy(); delete b; continue; }
+      long got = o.errs[0].r - o.errs[0].s;
+      if (got > best) { v.fail("first recovery ignored " + std::to_string(got) + " tokens although a simple recovery of cost " + std::to_string(best) + " exists" + where); return v; }
+      if (got < best) v.labels.insert("m:cheaper-than-any-simple-recovery");
+      // cross reference to C07: is the reported number what was really dropped? (label only)
+      if (o.hook.n_rec > 0 && o.hook.rec[0].found && o.hook.rec[0].behind + o.hook.rec[0].ahead != got) v.labels.insert("m:hook-count-differs-from-report");
+      if (nSucc >= 2 && best >= 1) { v.nontrivial = true; if (nb) v.labels.insert("m:minimum-needs-back-move"); if (ns) v.labels.insert("m:minimum-needs-forward-skip"); if (nb && ns) v.labels.insert("m:minimum-needs-both"); }
+      b->destroy(); delete b;
+    }
+  }
+  return v;
+}
+
 extern const PropDef g_props_rec[] = {
     {"C06", genC06, runC06,
      "random CFG accepted under STRICT checking (reduced), with `error' rules in ~50% x 3 inputs (mostly mutated sentences) x lookahead{0,1,2} x "
      "recovery{off,on} x recovery_match 1-5; oracle = reference Earley first non-shiftable token (viable prefix), attribute identity, argument "
      "ranges and monotonicity for every callback. Non-trivial: non-sentence with >= 3 tokens whose error is not at token 0.",
      20},
+    {"C07", genC07, runC07,
+     "random CFG (strict or not) with `error' rules in ~70%, FULL-YIELD translations (every rule has an abstract node listing all rhs symbols in "
+     "order, so the leaves of the tree are the repaired input) x 3 inputs (mostly mutated sentences) x lookahead{0,1,2} x one/all parses x "
+     "recovery_match 1-5, recovery on; oracle: rc 0, tree well formed, callbacks >= 1 iff non-sentence (reference Earley), leaves = input with "
+     "disjoint segments replaced by ERROR leaves, missing tokens == sum(stop-start) over callbacks, tree in the reference enumeration of the "
+     "repaired input over the augmented grammar ($S : start $eof | error $eof), single callback + single ERROR => reported range == segment. "
+     "Non-trivial: a recovery that dropped >= 1 token behind the error or skipped >= 1 ahead (hook H3), or >= 2 callbacks.",
+     30},
+    {"C08", genC08, runC08,
+     "random CFG with `error' rules x non-sentences x lookahead{0,1,2} x recovery_match 1-5; oracle: tokens ignored by the first callback <= "
+     "minimum over all simple recoveries (back to any set p <= e with `. error', shift error, skip to q >= e, shift min(match, rest incl. end "
+     "of input) tokens) computed on the reference Earley sets of the augmented grammar. Non-trivial: >= 2 successful simple recoveries with "
+     "different costs and reference minimum >= 1.",
+     30},
 };
 extern const int g_nprops_rec = sizeof(g_props_rec) / sizeof(g_props_rec[0]);
 
